@@ -361,6 +361,15 @@ impl Mon {
                 return;
             }
         }
+        if w.runs[idx].out.panic.is_some() && w.runs[idx].taint.contains("torn") {
+            // C01 quantifies over previous data "the interpreter itself produced": once the durable store was
+            // damaged in place the peer is outside the property's domain. Observed and counted, never a violation.
+            let p = w.runs[idx].out.panic.clone().unwrap();
+            let loc = p.split(": ").next().unwrap_or("").to_string();
+            self.count(&format!("observed_outside_domain:panic_after_torn_store@{}", loc.rsplit('/').next().unwrap_or("")));
+            self.stop = true;
+            return;
+        }
         if w.runs[idx].out.panic.is_some() {
             let p = w.runs[idx].out.panic.clone().unwrap();
             let loc = p.split(": ").next().unwrap_or("").to_string();
